@@ -193,6 +193,16 @@ def build_app(which, docroot):
         sess.header(res)
         return res
 
+    @app.route("/odd299")
+    def odd299(req):
+        return "queued", "text/plain", None, 299   # not a registered code
+
+    @app.route("/set299")
+    def set299(req):
+        res = Response("set")
+        res.status_code = 299
+        return res
+
     @app.route("/private")
     @check_digest("R")
     def private(req):
@@ -257,6 +267,14 @@ KINDS = {
     "auth401": dict(path="/private"),
     "authbad": dict(path="/private",
                     headers={"Authorization": 'Digest username="u", x=1'}),
+    "authok": dict(path="/private", headers={"User-Agent": "ua"},
+                   digest=("00000001", "c1")),
+    "authok2": dict(path="/private", headers={"User-Agent": "ua"},
+                    digest=("00000001", "c1")),     # exact repeat
+    "authnc": dict(path="/private", headers={"User-Agent": "ua"},
+                   digest=("00000000", "c1")),      # lower nc, same cnonce
+    "odd299": dict(path="/odd299"),
+    "set299": dict(path="/set299"),
     "user": dict(path="/user/bob/7"),
     "usermiss": dict(path="/user/bob/x"),
     "cookie": dict(path="/cookie"),
@@ -295,8 +313,31 @@ def canon(ans):
     return (ans.status, tuple(hdrs), body)
 
 
+def digest_authorization(app, method, uri, agent, nc, cnonce):
+    """a correct RFC 7616 header for user u of realm R (MD5-sess, auth),
+    with the nonce the application issues at the frozen clock"""
+    import hashlib
+    from poorwsgi.session import get_token
+
+    def md5(text):
+        return hashlib.md5(text.encode()).hexdigest()
+    nonce = get_token(app.secret_key, agent, timeout=app.auth_timeout)
+    opaque = hashlib.sha256(b"example.org").hexdigest()
+    ha1 = md5("%s:%s:%s" % (md5("u:R:pw"), nonce, cnonce))
+    resp = md5("%s:%s:%s:%s:auth:%s" % (ha1, nonce, nc, cnonce,
+                                        md5("%s:%s" % (method, uri))))
+    return ('Digest username="u", realm="R", nonce="%s", uri="%s", '
+            'algorithm=MD5-sess, response="%s", opaque="%s", qop=auth, '
+            'nc=%s, cnonce="%s"' % (nonce, uri, resp, opaque, nc, cnonce))
+
+
 def do_request(app, kind):
     kw = dict(KINDS[kind])
+    dig = kw.pop("digest", None)
+    if dig:
+        kw["headers"] = dict(kw["headers"], Authorization=digest_authorization(
+            app, kw.get("method", "GET"), kw["path"],
+            kw["headers"]["User-Agent"], dig[0], dig[1]))
     env = environ(**kw)
     recs = []
     env["verif.rec"] = recs
